@@ -166,6 +166,9 @@ func runC03(c *core.Ctx) {
 		n++
 	}
 	c.Count("reader_path_obligations", n)
+	// the optional-parameter parsers decide where an image ends: their error handling (an early end of input inside a
+	// parameter is an error, a clean end is success) is decided by the C16 parser rules
+	importRules(c, "C16", "C03-TRUNC", func(o core.Obligation) bool { return o.Rule == "C16-PARSE" || o.Rule == "C16-AGREE" })
 }
 
 // truncRule is C01-ERR restricted to the decoder: input ending early => error.
